@@ -46,6 +46,7 @@ TBlock == /\ IsEvent("Block")
              /\ e.frac = Frac
              /\ "panic" \notin DOMAIN e /\ "rawErr" \notin DOMAIN e /\ e.impErr = ""
              /\ k = e.k /\ e.parent = Parent0 + e.k
+             \* the model's own state carried from the previous block equals the logged one (first block: the fixture state)
              /\ [vals |-> vals, wq |-> Live(wq), pen |-> pen] = ConvProj(e.pre)
              /\ Block([i \in DOMAIN e.new |-> ConvCase(e.new[i], e)])
              /\ LiveProj(last'.seal) = ConvProj(e.seal)
